@@ -800,13 +800,28 @@ impl TypeId {
         tycker.err_p_to_k(res)
     }
     pub fn unroll(self, tycker: &mut Tycker<'_>) -> Result<TypeId> {
+        self.unroll_through(tycker, &mut Vec::new())
+    }
+    /// `sealed`: the seals opened on the way here. A definition such as
+    /// `def A : VType = A` seals a type that unrolls to itself without ever
+    /// reaching a type former.
+    fn unroll_through(self, tycker: &mut Tycker<'_>, sealed: &mut Vec<AbstId>) -> Result<TypeId> {
         let kd = tycker.statics.type_kind(self);
         let env = tycker.statics.env_at(self);
         let res = match tycker.type_filled(&self)?.to_owned() {
             | Type::Abst(abst) => {
                 match tycker.statics.seals.get(&abst) {
                     | Some(ty) => {
-                        ty.unroll(tycker)?
+                        if sealed.contains(&abst) {
+                            return tycker.err(
+                                TyckError::Expressivity(
+                                    "a sealed type definition unrolls to itself",
+                                ),
+                                std::panic::Location::caller(),
+                            );
+                        }
+                        sealed.push(abst);
+                        ty.unroll_through(tycker, sealed)?
                     }
                     | None => self,
                 }
@@ -814,7 +829,7 @@ impl TypeId {
             | Type::App(ty) => {
                 // congruence rule
                 let App(ty1, ty2) = ty;
-                let ty1_ = ty1.unroll(tycker)?;
+                let ty1_ = ty1.unroll_through(tycker, sealed)?;
                 if ty1 == ty1_ {
                     self
                 } else {
